@@ -12,7 +12,7 @@ Proof. split; [left; reflexivity|cbn; discriminate]. Qed.
 
 Ltac unfold_all :=
   unfold step, do_commit, guard_write, guard_read, do_newbtree, do_openbtree, do_p1, do_p2, do_rollback, do_rollback_f, do_begin,
-    op_add, op_find, op_update, op_remove, undo, undo_rewound,
+    op_add, op_find, op_update, op_remove, undo, undo_p2, keep_created, undo_rewound,
     set_refetched, set_phase, set_committed, set_disk, set_work, set_prepared, set_open, set_handle, has_begun in *.
 
 Ltac split_matches :=
